@@ -80,6 +80,11 @@ class World(EventDispatcher):
             while entity_id in self._entities:
                 entity_id = next(self.id_generator)
 
+        # A new entity: a deletion requested while the identifier named no
+        # entity does not concern it
+        if entity_id not in self._entities:
+            self._dead_entities.discard(entity_id)
+
         # Code duplication for performance, see add_component
         for component in components:
             component_type = type(component)
@@ -136,6 +141,10 @@ class World(EventDispatcher):
             f'Entity ID must be hashble, found {entity}, which is not')
 
         component_type = type(component)
+
+        # A new entity, see create_entity
+        if entity not in self._entities:
+            self._dead_entities.discard(entity)
 
         # Manage replaced components
         if component_type in self._entities.get(entity, {}):
